@@ -152,6 +152,62 @@ impl Scheduler {
         true
     }
 
+    /// Like `step`, but gives up waiting after `ms` milliseconds: the worker is then blocked on
+    /// something another worker holds (e.g. an async mutex). It stays marked as running; its next
+    /// report is picked up whenever the scheduler waits again.
+    pub fn step_or_block(&mut self, id: usize, ms: u64) -> &'static str {
+        if self.finished[id] {
+            return "finished";
+        }
+        if self.parked[id].is_none() {
+            // already blocked from an earlier grant: see whether it has moved meanwhile
+            self.drain();
+            return if self.finished[id] { "finished" } else if self.parked[id].is_some() { "parked" } else { "blocked" };
+        }
+        self.parked[id] = None;
+        let _ = self.grant_tx[id].send(());
+        let deadline = std::time::Instant::now() + std::time::Duration::from_millis(ms);
+        loop {
+            let left = deadline.saturating_duration_since(std::time::Instant::now());
+            match self.from_workers.recv_timeout(left) {
+                Ok((wid, rep)) => {
+                    match rep {
+                        Report::At(name) => self.parked[wid] = Some(name),
+                        Report::Note(t) => self.notes[wid].push(t),
+                        Report::Finished => {
+                            self.finished[wid] = true;
+                            self.parked[wid] = None;
+                        }
+                    }
+                    if wid == id && (self.finished[id] || self.parked[id].is_some()) {
+                        return if self.finished[id] { "finished" } else { "parked" };
+                    }
+                }
+                Err(_) => return "blocked",
+            }
+        }
+    }
+
+    /// picks up reports that arrived while nobody was waiting
+    pub fn drain(&mut self) {
+        // give a just-unblocked worker a moment to reach its next point
+        let deadline = std::time::Instant::now() + std::time::Duration::from_millis(30);
+        loop {
+            let left = deadline.saturating_duration_since(std::time::Instant::now());
+            match self.from_workers.recv_timeout(left) {
+                Ok((wid, rep)) => match rep {
+                    Report::At(name) => self.parked[wid] = Some(name),
+                    Report::Note(t) => self.notes[wid].push(t),
+                    Report::Finished => {
+                        self.finished[wid] = true;
+                        self.parked[wid] = None;
+                    }
+                },
+                Err(_) => return,
+            }
+        }
+    }
+
     pub fn where_is(&self, id: usize) -> String {
         if self.finished[id] {
             "finished".into()
